@@ -137,7 +137,7 @@ CHECKS = {
              "transports triplets and entries; element permutations, triangle rotations/flips and tetra vertex swaps leave all entries "
              "unchanged; eigenpairs are transported with lambda -> lambda/s^2; normalisation by area / vol^(2/3) cancels the scaling; "
              "reweight and Euclidean distance specifications. compute_shapedna's dictionary, normalize_ev (3 methods x 2 kinds), "
-             "reweight_ev, compute_distance are compared with the model. Spectrum-level statement holds relative to the eigensolver contract of C03.",
+             "reweight_ev, compute_distance are compared with the model. Spectrum-level statement holds relative to the eigensolver contract of C03. normalize_ev (all methods, real power 2/3) and compute_shapedna (Solver arguments, dictionary fields, outputs passed on) are re-traced from source as protocols on every run and bridged by proof.",
         ref="DESIGN.md 6/C04",
         note=NOTE + "spectrum-level invariance = matrix-level theorems + eigsh contract (C03); scaling limited to [1/4,4] in the search oracle.",
         technique="Lean 4 proof (similarity lemmas on dot products, induction over elements) tied by tracing bridges of the FEM kernels and differential driver"),
@@ -147,7 +147,7 @@ CHECKS = {
              "(C06/C03 theorems, kernels bridged from source). The right-hand side and matrix handed to the Poisson solve, the minimum "
              "shift and the pinned vertex of rotated_f are captured and compared with the model. Not provable in an exact model: "
              "existence/finiteness of SuperLU's factorisation of the SINGULAR stiffness matrix (recorded finding F15 on exactly "
-             "representable meshes); the unit-slope / quarter-turn exactness clauses are evaluated by the search oracle.",
+             "representable meshes); the unit-slope / quarter-turn exactness clauses are evaluated by the search oracle. The glue of the three functions (field handed to the divergence, Solver construction, identity mass, boundary data, shift by the minimum) is re-traced from source as a protocol on every run and bridged by proof.",
         ref="DESIGN.md 6/C08",
         note=NOTE + "singular solve contract assumed and monitored; composition theorems geo_affine are corollaries listed in DESIGN.",
         technique="Lean 4 proof of the operator identities behind the geodesic/rotated systems, tied by traced kernels and captured-argument comparison"),
@@ -194,7 +194,7 @@ CHECKS = {
              "puts every non-zero vector at distance 100; negating an eigenfunction swaps the two threshold sets, so after the conditional "
              "flip the mean difference along the axis is >= 0. Every spsolve call of tria_mean_curvature_flow is captured and its matrix / "
              "right-hand side / stopping quantity compared with the model built from the previous iterate; gates and constants compared. "
-             "Monitored, not proved: sphere fixed point and decreasing radial spread (shape-family statements), eigsh/spsolve contracts.",
+             "Monitored, not proved: sphere fixed point and decreasing radial spread (shape-family statements), eigsh/spsolve contracts. tria_mean_curvature_flow is also re-traced from source as a protocol on every run (order of the calls, both linear systems, stopping quantity and decisions) and bridged by proof.",
         ref="DESIGN.md 6/C19",
         note=NOTE + "external solves assumed (monitored); shape-family clauses evaluated by the search oracle only.",
         technique="Lean 4 proof of the normalisation / step / alignment algebra, tied by captured-argument comparison of every flow iteration"),
